@@ -114,8 +114,14 @@ static std::string run(std::vector<std::string> const &w)
 		std::string name,a; if(!vh::unhex(w[1],name) || !vh::unhex(w[2],a)) return "bad-op";
 		static booster::locale::generator gen;
 		static std::map<std::string,std::locale> cache;
+		static std::map<std::string,bool> unsupported;
+		if(unsupported.count(name)) return "nolocale";
 		std::map<std::string,std::locale>::iterator it=cache.find(name);
-		if(it==cache.end()) it=cache.insert(std::make_pair(name,gen("en_US."+name))).first;
+		if(it==cache.end()) {
+			// the generator (ICU / std backend) may not know the charset at all: then no validator runs
+			try { it=cache.insert(std::make_pair(name,gen("en_US."+name))).first; }
+			catch(std::exception const &) { unsupported[name]=true; return "nolocale"; }
+		}
 		std::string enc=std::use_facet<booster::locale::info>(it->second).encoding();
 		if(!encoding::is_ascii_compatible(enc)) return "ext";
 		heapbuf hb(a);
